@@ -21,7 +21,11 @@ func restoreIndex(rootGoitPath, path string, index *store.Index, tree *object.Tr
 	_, _, isEntryFound := index.GetEntry([]byte(path))
 
 	// get node
+	// a directory of HEAD with the same name is not the HEAD version of a staged file
 	node, isNodeFound := object.GetNode(tree.Children, path)
+	if isNodeFound && len(node.Children) > 0 {
+		isNodeFound = false
+	}
 
 	// if the path is registered in the Index
 	if isEntryFound {
